@@ -120,7 +120,7 @@ func runOneSimLimit(c simLimCase) (fails []monFail, info string) {
 			ServerConf: &quic.Config{MaxIdleTimeout: serverIdle, EnableDatagrams: true, MaxIncomingStreams: 10, MaxIncomingUniStreams: 10},
 			ClientConf: simLimClientConf(c.Cfg),
 		}
-		if c.Kind != kCID {
+		if c.Kind != kCID && c.Kind != kCIDRotate {
 			o.SrvTr = func(t *quic.Transport) {
 				t.ConnectionIDGenerator = &cappedCIDGen{max: 4, until: time.Now().Add(time.Second)}
 			}
@@ -377,6 +377,50 @@ func runOneSimLimit(c simLimCase) (fails []monFail, info string) {
 			})
 		case kCID:
 			waitLimit = 2 * time.Second
+		case kCIDRotate:
+			// The in-tree server never sets Retire Prior To, so the harness makes its connection ID
+			// generator do what a peer may do (RFC 9000 5.1.1): issue IDs until the client stores as
+			// many as it advertised, then replace the ID the client uses: one more NEW_CONNECTION_ID
+			// whose Retire Prior To retires it (and, third step, two at once). The count after the
+			// retirement never exceeds the advertised limit.
+			waitLimit = time.Second
+			time.Sleep(time.Second) // the client's own post-handshake rotation has happened
+			limit := int(adv.ActiveConnectionIDLimit)
+			step := func(what string, n int, retire uint64, drop int) bool {
+				synctest.Wait()
+				active, queued := quic.VerifAdvEnfCIDState(conn)
+				rpt := uint64(0)
+				if retire > 0 {
+					rpt = active + retire
+				}
+				if n < 0 {
+					n = limit - (1 + queued) // fill up to the advertised limit
+				}
+				if n > 0 {
+					if err := quic.VerifAdvEnfServerIssue(sconn, n, rpt, drop); err != nil {
+						note("%s: server could not issue: %v", what, err)
+						return false
+					}
+				}
+				time.Sleep(500 * time.Millisecond)
+				synctest.Wait()
+				a2, q2 := quic.VerifAdvEnfCIDState(conn)
+				note("%s: %d NEW_CONNECTION_ID (retire_prior_to %d); client used seq %d with %d spare, now seq %d with %d spare (advertised limit %d)", what, n, rpt, active, queued, a2, q2, limit)
+				return verdict(conn, what)
+			}
+			if !step("fill to the advertised limit", -1, 0, 0) {
+				break
+			}
+			if _, q := quic.VerifAdvEnfCIDState(conn); 1+q != limit {
+				fail(c.key()+"/underused", fmt.Sprintf("the client stores %d connection IDs after the peer filled the advertised limit %d", 1+q, limit))
+			}
+			if !step("rotate the connection ID in use at the limit", 1, 1, 1) {
+				break
+			}
+			if limit >= 3 && !step("rotate, retiring two at once", 1, 2, 1) {
+				break
+			}
+			step("rotate again", 1, 1, 1)
 		case kDgram:
 			if adv.MaxDatagramFrameSize <= 0 {
 				note("no datagram support advertised")
@@ -559,6 +603,9 @@ func simLimMatrix() []simLimCase {
 	for _, p := range parrotNames { // B, C: the Config-dependent kinds
 		m = append(m, simLimCase{p, kIdleMs, "idle10s"})
 		m = append(m, simLimCase{p, kStreamsBidi, "streams50"})
+	}
+	for _, p := range append(append([]string{}, parrotNames...), "plain") { // F: connection ID rotation at the advertised limit
+		m = append(m, simLimCase{p, kCIDRotate, "default-config"})
 	}
 	for _, k := range kinds { // E: the plain client as a control
 		m = append(m, simLimCase{"plain", k, "default-config"})
